@@ -8,8 +8,9 @@
    Every dq_state transition is the body generated from the source (Gen_dqstate); an rmw loop is one atomic step
    (its successful compare-exchange; failed attempts and the initial load do not change shared state).
    The root queue is abstract: a counter of how many times the lane sits in it; any idle thread may act as a
-   worker that pops it.  Not modelled here: suspension, dispatch_sync (see SLane2), QoS overrides beyond the
-   max-qos merge, reference counts. *)
+   worker that pops it.  Not modelled here: suspension, dispatch_sync, reference counts.  A push onto a non-empty
+   list may take the override continuation (`ostep`: wakeup without MAKE_DIRTY), found missing by the trace
+   conformance of recorded runs (Model/SLaneT.v) and added. *)
 From Coq Require Import ZArith Bool List.
 From Verif Require Import Word Conc Gen_consts Gen_dqstate.
 Import ListNotations.
@@ -28,6 +29,8 @@ Inductive pc :=
 | PA_probe (qos : Z)                   (* dx_wakeup -> _dispatch_lane_wakeup: _dispatch_queue_class_probe *)
 | PA_wake (qos : Z) (target : bool)    (* _dispatch_queue_wakeup: the rmw loop (only when a target was chosen) *)
 | PA_rootpush                          (* this wakeup set ENQUEUED: push the lane on its target *)
+| PA_oprobe (qos : Z)                  (* push onto a non-empty list that decided to override: _dispatch_queue_class_probe *)
+| PA_owake (qos : Z)                   (* ... _dispatch_queue_wakeup's rmw loop WITHOUT MAKE_DIRTY (flags = CONSUME_2) *)
 | PW_lock (floor : Z)                  (* worker popped the lane: _dispatch_queue_drain_try_lock *)
 | PW_tail (owned : Z)                  (* serial drain entry: if (!dq->dq_items_tail) return NULL *)
 | PW_head (owned : Z)                  (* _dispatch_queue_get_head: waits for the enqueuer's link *)
@@ -130,6 +133,17 @@ Definition gstep (s : gst) (t : Z) : option gst :=
       | _ => None
       end
   | PA_rootpush => Some (set_token (set_pc (set_rootq s (rootq s + 1)) t Idle) (Some None))
+  | PA_oprobe qos => Some (match lst s with [] => set_pc s t Idle | _ => set_pc s t (PA_owake qos) end)
+  | PA_owake qos =>
+      (* no MAKE_DIRTY: merges the QoS, sets ENQUEUED when allowed, gives up when that changes nothing *)
+      match wakeup_loop 0 qos 1 1 (st s) ENQUEUED with
+      | Commit new _ =>
+          let enq_set := negb (Z.land (Z.lxor (st s) new) ENQUEUED =? 0) in
+          let s1 := set_pc (set_st s new) t (if enq_set then PA_rootpush else Idle) in
+          Some (if enq_set then set_token s1 (Some (Some t)) else s1)
+      | NoCommit _ _ => Some (set_pc s t Idle)
+      | _ => None
+      end
   | PW_lock floor =>
       match f_dispatch_queue_drain_try_lock 0 0 1 t floor (st s) 0 with
       | Commit new owned =>
@@ -168,12 +182,22 @@ Definition gstep (s : gst) (t : Z) : option gst :=
   | PW_xor owned => Some (set_pc (set_st s (Z.lxor (st s) DIRTY)) t (PW_tail owned))
   end.
 
+(* the other continuation of a push onto a non-empty list (queue.c:5077 `else if (_dispatch_queue_need_override(dq, qos))`):
+   the decision is taken on a plain, possibly stale read of the queue's max QoS, so the model allows it whenever the
+   normal continuation is allowed: publish the link, then go and wake the queue with flags = CONSUME_2 only *)
+Definition ostep (s : gst) (t : Z) : option gst :=
+  match pcs s t with
+  | PA_link i false qos => Some (set_pc (set_lst s (link_id (lst s) i)) t (PA_oprobe qos))
+  | _ => None
+  end.
+
 Definition valid_tid (t : Z) : Prop := 0 < t < 1073741824.
-Inductive action := ABegin (t : Z) (c : call) | AStep (t : Z).
+Inductive action := ABegin (t : Z) (c : call) | AStep (t : Z) | AStepO (t : Z).
 Definition step (s : gst) (a : action) (s' : gst) : Prop :=
   match a with
   | ABegin t c => valid_tid t /\ begin s t c = Some s'
   | AStep t => valid_tid t /\ gstep s t = Some s'
+  | AStepO t => valid_tid t /\ ostep s t = Some s'
   end.
 Definition reach (role_bits : Z) : gst -> Prop := reachable (fun s => s = init_state role_bits) step.
 
@@ -182,4 +206,5 @@ Fixpoint run (s : gst) (acts : list action) : option gst :=
   | [] => Some s
   | ABegin t c :: r => match begin s t c with Some s' => run s' r | None => None end
   | AStep t :: r => match gstep s t with Some s' => run s' r | None => None end
+  | AStepO t :: r => match ostep s t with Some s' => run s' r | None => None end
   end.
